@@ -70,6 +70,11 @@ def extra(binary, build, tier, rng):
         elif msg:
             yield {"kind": "oracle", "build": build, "request": mk(info[min(info)][0]), "impl": str(info)[:600], "model": "", "oracle": msg}
         calls += p.calls
+        if not msg:
+            from .preimage_oracle import second_stage_counts
+            def mk2(w1, w2, path=path):
+                return "std%s ty=char n=1 profile=%s words=%d,%d" % (path, prof, w1, w2)
+            yield from second_stage_counts(binary, build, rng.fork("char2" + path), "StandardUniform<char>" + path, r, 64, mk, mk2, parse, max_first=1)
     yield {"kind": "count", "what": "char-preimage-probes", "n": calls}
     yield from grid_counts(binary, build, prof)
     yield from alnum_exact(binary, build)
